@@ -1139,18 +1139,18 @@ def task_unit_sweep(ctx):
 
 def tasks(tier):
     if tier == "quick":
-        return [("strings-a", task_strings, dict(n=450, depth=1, width=6)),
-                ("strings-b", task_strings, dict(n=450, depth=2, width=4)),
-                ("strings-c", task_strings, dict(n=450, depth=1, width=4)),
-                ("strings-d", task_strings, dict(n=450, depth=0, width=6)),
-                ("strings-e", task_strings, dict(n=450, depth=1, width=5)),
+        return [("strings-a", task_strings, dict(n=330, depth=1, width=6)),
+                ("strings-b", task_strings, dict(n=360, depth=2, width=4)),
+                ("strings-c", task_strings, dict(n=360, depth=1, width=4)),
+                ("strings-d", task_strings, dict(n=360, depth=0, width=6)),
+                ("strings-e", task_strings, dict(n=360, depth=1, width=5)),
                 ("unit-sweep", task_unit_sweep, dict()),
-                ("api-a", task_api, dict(n=450, depth=1)),
-                ("api-b", task_api, dict(n=450, depth=2)),
-                ("api-c", task_api, dict(n=450, depth=0)),
-                ("api-d", task_api, dict(n=450, depth=1)),
-                ("api-e", task_api, dict(n=450, depth=0)),
-                ("series", task_series, dict(n=450, depth=1))]
+                ("api-a", task_api, dict(n=400, depth=1)),
+                ("api-b", task_api, dict(n=400, depth=2)),
+                ("api-c", task_api, dict(n=400, depth=0)),
+                ("api-d", task_api, dict(n=400, depth=1)),
+                ("api-e", task_api, dict(n=400, depth=0)),
+                ("series", task_series, dict(n=400, depth=1))]
     out = []
     for k in range(8):
         out.append(("strings-%d" % k, task_strings, dict(n=6000, depth=1 + k % 3, width=6 if k % 3 == 0 else 4)))
